@@ -365,13 +365,43 @@ func ruleDirectWrite(c *Check, p *Program, rule string) {
 			if a.Kind == "call" && strings.HasSuffix(a.Name, "isNotConcurrent") && a.Val {
 				seq = true
 			}
-			if b, ok := a.V.(*ssa.BinOp); ok && a.Kind == "cmp" {
-				if b.Op == token.EQL && a.Val && loadField(b.X) == "Writer.idx" {
-					if k, isK := constUint(b.Y); isK && k == 0 {
-						empty = true
+			if z := atomSaysZero(a); z != nil && loadField(z) == "Writer.idx" {
+				empty = true
+			}
+			if big, small := atomSaysGeq(a); big != nil {
+				// len(caller buffer) >= block length (the length of the accumulation buffer)
+				isLenOfBuf := func(v ssa.Value) bool {
+					call, isC := v.(*ssa.Call)
+					if !isC {
+						return false
 					}
+					bi, isB := call.Call.Value.(*ssa.Builtin)
+					if !isB || bi.Name() != "len" {
+						return false
+					}
+					from := false
+					walkBack(call.Call.Args[0], false, func(x ssa.Value) bool {
+						if x == buf {
+							from = true
+						}
+						return true
+					})
+					return from
 				}
-				if b.Op == token.GEQ && a.Val {
+				isLenOfData := func(v ssa.Value) bool {
+					ok := false
+					walkBack(v, false, func(x ssa.Value) bool {
+						if call, isC := x.(*ssa.Call); isC {
+							if bi, isB := call.Call.Value.(*ssa.Builtin); isB && (bi.Name() == "len" || bi.Name() == "cap") && derivesFromField(call.Call.Args[0], "Writer.data") {
+								ok = true
+							}
+							return false
+						}
+						return true
+					})
+					return ok
+				}
+				if isLenOfBuf(big) && isLenOfData(small) {
 					full = true
 				}
 			}
@@ -754,28 +784,43 @@ func ruleDescriptorConstants(c *Check, p *Program, rule string) {
 	// header check byte: bits 8..15 of XXH32 over the descriptor, shared by writer and reader
 	dc := findFn(c, p, rule, "internal/lz4stream", "descriptorChecksum")
 	if dc != nil {
+		// bit provenance: the returned byte is bits 8..15 of ChecksumZero(whole argument)
 		ok := false
-		allInstrs(dc, func(in ssa.Instruction) {
-			if r, isR := in.(*ssa.Return); isR && len(r.Results) == 1 {
-				v := r.Results[0]
-				if cv, isC := v.(*ssa.Convert); isC && widthOf(cv.Type()) == 8 {
-					if b, isB := cv.X.(*ssa.BinOp); isB && b.Op == token.SHR {
-						if k, isK := constUint(b.Y); isK && k == 8 {
-							if call, isCall := b.X.(*ssa.Call); isCall && calleeIs(call, pkgXXH, "ChecksumZero") && call.Call.Args[0] == dc.Params[0] {
-								ok = true
-							}
+		var hcall *ssa.Call
+		for _, ci := range callsIn(dc) {
+			if call, isC := ci.(*ssa.Call); isC && calleeIs(call, pkgXXH, "ChecksumZero") && len(dc.Params) > 0 && call.Call.Args[0] == ssa.Value(dc.Params[0]) {
+				hcall = call
+			}
+		}
+		if hcall != nil {
+			allInstrs(dc, func(in ssa.Instruction) {
+				if r, isR := in.(*ssa.Return); isR && len(r.Results) == 1 {
+					env := &bitEnv{vals: map[ssa.Value]bitvec{hcall: inputVec('i', 32)}, ok: true}
+					bv := env.eval(r.Results[0])
+					good := env.ok
+					for i := 0; i < 8; i++ {
+						if bv[i].kind != 'i' || bv[i].idx != i+8 {
+							good = false
 						}
 					}
+					for i := 8; i < 64; i++ {
+						if bv[i].kind != '0' {
+							good = false
+						}
+					}
+					if good {
+						ok = true
+					}
 				}
-			}
-		})
+			})
+		}
 		c.Cond(ok, rule, "descriptorChecksum#second-byte", p.Pos(dc.Pos()), "the header check byte is byte(XXH32(descriptor) >> 8)", "byte(ChecksumZero(buf) >> 8)", "the check byte is not bits 8..15 of the hash of the whole argument")
 	}
 	// writer hashes buf[4:] i.e. FLG, BD and content size, not the magic
 	dw := findFn(c, p, rule, "internal/lz4stream", "FrameDescriptor.Write")
 	if dw != nil && dc != nil {
 		ok := false
-		for _, ci := range callsIn(dw) {
+		for _, ci := range callsInDeep(dw) {
 			if staticCallee(ci) == dc {
 				if sl, isS := ci.Common().Args[0].(*ssa.Slice); isS && sl.Low != nil && sl.High == nil {
 					if k, isK := constUint(sl.Low); isK && k == 4 {
@@ -843,4 +888,23 @@ func atomSaysZero(a Atom) ssa.Value {
 		return x
 	}
 	return nil
+}
+
+// atomSaysGeq: the guard atom states big >= small for two integer values, in
+// any comparison form (>=, <= mirrored, !(<), !(>) mirrored). Returns (big, small) or nils.
+func atomSaysGeq(a Atom) (ssa.Value, ssa.Value) {
+	if a.Kind != "cmp" {
+		return nil, nil
+	}
+	b, ok := a.V.(*ssa.BinOp)
+	if !ok {
+		return nil, nil
+	}
+	switch {
+	case b.Op == token.GEQ && a.Val, b.Op == token.LSS && !a.Val:
+		return b.X, b.Y
+	case b.Op == token.LEQ && a.Val, b.Op == token.GTR && !a.Val:
+		return b.Y, b.X
+	}
+	return nil, nil
 }
